@@ -1,0 +1,19 @@
+//go:build verif
+
+package cipher
+
+import "crypto/cipher"
+
+// Verification hook (build tag `verif` only): the package's CFB cores with a caller-supplied block
+// function, so that the hand-unrolled loops of block.go can be run with a block function an
+// executable model can compute. Nothing here is compiled into a normal build.
+
+// VerifEncrypt is encrypt: the same dispatch on block.BlockSize() and the same unrolled loops.
+func VerifEncrypt(block cipher.Block, iv, dst, src, buf []byte) {
+	encrypt(block, iv, dst, src, buf)
+}
+
+// VerifDecrypt is decrypt: the same dispatch on block.BlockSize() and the same unrolled loops.
+func VerifDecrypt(block cipher.Block, iv, dst, src, buf []byte) {
+	decrypt(block, iv, dst, src, buf)
+}
